@@ -23,20 +23,19 @@ func (l *LineFilterPlanner) Process(ctx *shared.PlannerContext) (sql.ISelect, er
 	var clause sql.SQLCondition
 	switch l.Op {
 	case "|=":
-		clause, err = l.doLike("like")
+		clause, err = l.doLike("like", l.Val)
 		break
 	case "!=":
-		clause, err = l.doLike("notLike")
+		clause, err = l.doLike("notLike", l.Val)
 		break
 	case "|~":
 		likeStr, isInsensitive, isLike := l.re2Like()
 		if isLike {
-			l.Val = likeStr
 			like := "like"
 			if isInsensitive {
 				like = "ilike"
 			}
-			clause, err = l.doLike(like)
+			clause, err = l.doLike(like, likeStr)
 		} else {
 			clause = sql.Eq(&sqlMatch{
 				col:     sql.NewRawObject("string"),
@@ -47,12 +46,11 @@ func (l *LineFilterPlanner) Process(ctx *shared.PlannerContext) (sql.ISelect, er
 	case "!~":
 		likeStr, isInsensitive, isLike := l.re2Like()
 		if isLike {
-			l.Val = likeStr
 			like := "notLike"
 			if isInsensitive {
 				like = "notILike"
 			}
-			clause, err = l.doLike(like)
+			clause, err = l.doLike(like, likeStr)
 		} else {
 			clause = sql.Eq(&sqlMatch{
 				col:     sql.NewRawObject("string"),
@@ -70,8 +68,8 @@ func (l *LineFilterPlanner) Process(ctx *shared.PlannerContext) (sql.ISelect, er
 	return req.AndWhere(clause), nil
 }
 
-func (l *LineFilterPlanner) doLike(likeOp string) (sql.SQLCondition, error) {
-	enqVal, err := l.enquoteStr(l.Val)
+func (l *LineFilterPlanner) doLike(likeOp string, val string) (sql.SQLCondition, error) {
+	enqVal, err := l.enquoteStr(val)
 	if err != nil {
 		return nil, err
 	}
